@@ -61,6 +61,8 @@ pub enum QSel {
     Random(u16),
     Far,
     Zero,
+    /// a stored vector scaled by 2^-17 / 2^-10 / 2^10 (same direction, unusual magnitude)
+    Scaled(u16, u8),
 }
 
 #[derive(Clone, Debug, Serialize, Deserialize)]
@@ -94,6 +96,7 @@ fn op_strategy() -> impl Strategy<Value = HOp> {
         2 => any::<u16>().prop_map(QSel::Random),
         1 => Just(QSel::Far),
         1 => Just(QSel::Zero),
+        2 => (any::<u16>(), 0u8..3).prop_map(|(a, b)| QSel::Scaled(a, b)),
     ];
     prop_oneof![
         12 => (id.clone(), any::<u16>()).prop_map(|(id, v)| HOp::Insert { id, v }),
@@ -120,8 +123,19 @@ fn vector_of(v: u16, dim: usize) -> Vec<f32> {
             *c = bf16::from_f32(*c - 0.5).to_f32();
         }
     }
+    // unusual magnitudes (exact powers of two, so the bf16 values scale exactly): an embedding
+    // scaled by 2^-17 has a norm around 1e-5 - far above the documented near-zero cut-off of the
+    // cosine metric (f32::EPSILON) - and one scaled by 2^10 a norm around 1e3
+    match v % 11 {
+        1 => x.iter_mut().for_each(|c| *c *= SMALL),
+        2 => x.iter_mut().for_each(|c| *c *= LARGE),
+        _ => {}
+    }
     x
 }
+
+const SMALL: f32 = 1.0 / 131072.0; // 2^-17
+const LARGE: f32 = 1024.0; // 2^10
 
 fn to_bf16(v: &[f32]) -> Vec<bf16> {
     v.iter().map(|x| bf16::from_f32(*x)).collect()
@@ -243,6 +257,10 @@ fn query_vec(q: &QSel, model: &Model, dim: usize) -> Vec<f32> {
         QSel::Random(s) => SplitMix64(0x5151_0000 + *s as u64).next_vector(dim),
         QSel::Far => vec![100.0; dim],
         QSel::Zero => vec![0.0; dim],
+        QSel::Scaled(i, e) => {
+            let f = [SMALL, 1.0 / 1024.0, LARGE][(*e % 3) as usize];
+            stored(*i).unwrap_or_else(|| vec![0.25; dim]).iter().map(|c| c * f).collect()
+        }
     }
 }
 
@@ -269,6 +287,16 @@ fn check_search(metric: DistanceMetric, res: &[(u64, f32)], k: usize, q: &[f32],
         prev = *d;
         let want = distance(metric, q, v);
         let tol = 2e-4 * want.abs().max(1.0) + 2e-5;
+        // a norm within 1 % of the documented near-zero cut-off of the cosine metric may fall on
+        // either side of it in f32: both answers (1.0 / the formula) are accepted there
+        let at_cutoff = metric == DistanceMetric::Cosine && {
+            let n = |x: &[f32]| x.iter().map(|c| (*c as f64) * (*c as f64)).sum::<f64>().sqrt() / f32::EPSILON as f64;
+            let (a, b) = (n(q), n(v));
+            (0.99..=1.01).contains(&a) || (0.99..=1.01).contains(&b)
+        };
+        if at_cutoff && ((*d as f64) - 1.0).abs() <= tol {
+            continue;
+        }
         if ((*d as f64) - want).abs() > tol {
             return Err(format!("{what}: id {id} is reported at distance {d}, the metric between the query and its stored vector is {want}"));
         }
